@@ -44,7 +44,9 @@ def instances(tier, seed):
         for K in (2, 4, 5):
             progs.append(({'fam': 'T1', 'K': K, 'd0': 2, 's': 1, 'C': 1}, K <= 4))
         progs += [({'fam': 'T1', 'K': 3, 'd0': 1, 's': 2, 'C': 2}, False), ({'fam': 'T2', 'K0': 3, 'K1': 2}, False), ({'fam': 'A1', 'K': 2, 'C': 2}, False),
-                  ({'fam': 'K1', 'origins': ['s', 's']}, False), ({'fam': 'D2', 'C': 2}, False), ({'fam': 'L1'}, False)]
+                  ({'fam': 'K1', 'origins': ['s', 's']}, False), ({'fam': 'D2', 'C': 2}, False), ({'fam': 'L1'}, False),
+                  # BatchNorm with eps of the order of the running variances: the re-created BatchNorm must carry the hyper-parameters of the one it replaces
+                  ({'fam': 'D2', 'C': 2, 'bn_stats': 'generic'}, False), ({'fam': 'T2', 'K0': 2, 'K1': 1, 'T': 2, 'bn_stats': 'generic'}, False), ({'fam': 'L1', 'bn_stats': 'generic'}, False)]
     else:
         for K in range(1, 10):
             for d0 in (1, 2, 3):
@@ -61,6 +63,9 @@ def instances(tier, seed):
                 progs.append(({'fam': 'K1', 'origins': [a, b]}, False))
         progs += [({'fam': 'K1', 'origins': ['s', 'f', 's']}, False), ({'fam': 'K2'}, False), ({'fam': 'D2', 'C': 3, 'pool': 'avg'}, False),
                   ({'fam': 'D2', 'C': 2, 'pool': 'none', 'bn': False}, False), ({'fam': 'R2'}, False)]
+        for fold in (False, True):
+            progs += [({'fam': 'D2', 'C': 2, 'bn_stats': 'generic', 'pit': {'fold_bn': fold}}, False), ({'fam': 'T2', 'K0': 2, 'K1': 1, 'T': 2, 'bn_stats': 'generic', 'pit': {'fold_bn': fold}}, False),
+                      ({'fam': 'L1', 'bn_stats': 'generic', 'pit': {'fold_bn': fold}}, False)]
     for spec, symw in progs:
         out.append({'id': pitlib.prog_id(spec) + (':symw' if symw else ''), 'spec': spec, 'symw': symw, 'wseed': seed})
     return out
